@@ -22,6 +22,7 @@ ResOK(m, o) == \/ m = o
                \/ m = "IndexError" /\ o \in {"KeyError", "IndexError"}
                \/ m = "KeyOrValueError" /\ o \in {"KeyError", "ValueError"}
                \/ m = "LookupOrValueError" /\ o \in {"KeyError", "IndexError", "ValueError"}
+               \/ m = "ValueErrorOrAccepted" /\ o = "ValueError"    \* an ACCEPTED call of that zone is never recorded (history ends)
 
 TInit == /\ tid \in 1..Len(Traces)
          /\ l = 1
@@ -30,7 +31,7 @@ TInit == /\ tid \in 1..Len(Traces)
 
 TStep == /\ l <= Len(Tr.events)
          /\ LET e == Tr.events[l] IN
-              /\ e.op \in {"insert", "append"} \/ e.p \in 1..NParas
+              /\ e.op \in {"insert", "append", "appendo", "inserto"} \/ e.p \in 1..NParas
               /\ \/ e.op = "get"    /\ Get(e.p, K(e.k))
                  \/ e.op = "set"    /\ Assign(e.p, K(e.k), e.s, e.v)
                  \/ e.op = "del"    /\ DelOK(e.p, K(e.k)) /\ Del(e.p, K(e.k))
@@ -42,8 +43,14 @@ TStep == /\ l <= Len(Tr.events)
                  \/ e.op = "sortby" /\ SortBy(e.p, e.kt)      \* e.kt: the key function's table (sequence over name ranks)
                  \/ e.op = "insert" /\ InsertPara(e.idx, e.n)
                  \/ e.op = "append" /\ AppendPara(e.n)
+                 \/ e.op = "appendo" /\ e.w \in 0..NParas /\ AppendOwned(e.w)          \* e.w: owner of the paragraph (0 = another file)
+                 \/ e.op = "inserto" /\ e.w \in 0..NParas /\ InsertOwned(e.idx, e.w)
               /\ ResOK(res', e.res)
               /\ DocSame(doc', e.obs) = TRUE    \* equality; for documents that track nl: modulo the newline at the very end
+              \* a REFUSED structural call (events that carry the observation same = "dump() returns exactly
+              \* the text it returned before the call, up to a MISSING newline supplied at the very end of
+              \* the document"): no other byte changed - no second newline, nothing in front
+              /\ (("same" \in DOMAIN e /\ res' # "ok") => (doc' = doc /\ e.same)) = TRUE
          /\ l' = l + 1 /\ UNCHANGED tid
          /\ (Diag => PrintT(<<"AT", tid, l>>))
          /\ (l' = Len(Tr.events) + 1 => PrintT(<<"ACCEPTED", tid>>))
